@@ -1778,6 +1778,14 @@ fn drop_stream_ref(inner: &Mutex<Inner>, key: store::Key) {
             while let Some(promise) = ppp.pop(stream.store_mut()) {
                 counts.transition(promise, |counts, stream| {
                     maybe_cancel(stream, actions, counts);
+
+                    // Nobody can read what has been received on the pushed
+                    // stream either: give its window back to the connection.
+                    if stream.ref_count == 0 {
+                        actions
+                            .recv
+                            .release_closed_capacity(stream, &mut actions.task, counts);
+                    }
                 });
             }
         }
